@@ -914,12 +914,28 @@ impl<'a> Judge<'a> {
     /// Every transaction below the reconciliation as (before, after, depth of `before` in the
     /// chain, depth of `after` in the chain or usize::MAX for a head, label).
     fn deltas(&self) -> Vec<(&'a Snap, &'a Snap, usize, usize, String)> {
-        let mut out = vec![];
+        self.pairs()
+            .into_iter()
+            .enumerate()
+            .map(|(n, (x, y, f, t))| {
+                let label = if t == usize::MAX {
+                    format!("side #{}", n + 2 - self.chain.len())
+                } else {
+                    format!("the shared transaction #{t} below the heads")
+                };
+                (x, y, f, t, label)
+            })
+            .collect()
+    }
+
+    /// `deltas` without the labels (hot path).
+    fn pairs(&self) -> Vec<(&'a Snap, &'a Snap, usize, usize)> {
+        let mut out = Vec::with_capacity(self.chain.len() + self.sides.len());
         for k in 1..self.chain.len() {
-            out.push((self.chain[k - 1], self.chain[k], k - 1, k, format!("the shared transaction #{k} below the heads")));
+            out.push((self.chain[k - 1], self.chain[k], k - 1, k));
         }
         for (i, sn) in self.sides.iter().enumerate() {
-            out.push((self.chain[self.depths[i]], *sn, self.depths[i], usize::MAX, format!("side #{}", i + 1)));
+            out.push((self.chain[self.depths[i]], *sn, self.depths[i], usize::MAX));
         }
         out
     }
@@ -936,37 +952,69 @@ impl<'a> Judge<'a> {
     /// result: per level of the chain, the values of the heads forked there plus what comes up
     /// from the deeper level (its changed values, or the chain's own value if no deeper head
     /// changed the item). In flat cases this is simply the sides' values in order.
-    fn live_values<T: Clone + PartialEq>(&self, get: impl Fn(&Snap) -> T) -> (T, Vec<T>) {
+    fn live_values<T: Clone + PartialEq>(&self, get: impl Fn(&Snap) -> T) -> (T, Vec<(T, bool)>) {
+        // the bool: the value is one of several different changes made above a deeper fork point
+        // (a conflict there), so it counts as a change even if it happens to equal the base value
         let top = self.chain.len() - 1;
-        let mut from_below: Option<Vec<T>> = None;
+        let mut from_below: Option<Vec<(T, bool)>> = None;
         for k in (0..=top).rev() {
-            let mut vals: Vec<T> = vec![];
+            let mut vals: Vec<(T, bool)> = vec![];
             for (i, sn) in self.sides.iter().enumerate() {
                 if self.depths[i] == k {
-                    vals.push(get(sn));
+                    vals.push((get(sn), false));
                 }
             }
             if let Some(deeper) = from_below.take() {
                 let deeper_base = get(self.chain[k + 1]);
-                let mut distinct: Vec<T> = vec![];
-                for v in deeper.into_iter().filter(|v| *v != deeper_base) {
-                    if !distinct.contains(&v) {
-                        distinct.push(v);
+                let mut distinct: Vec<(T, bool)> = vec![];
+                for (v, forced) in deeper.into_iter().filter(|(v, forced)| *forced || *v != deeper_base) {
+                    if !distinct.iter().any(|(d, _)| *d == v) {
+                        distinct.push((v, forced));
                     }
                 }
                 if distinct.is_empty() {
-                    vals.push(deeper_base);
+                    vals.push((deeper_base, false));
                 } else {
                     if deeper_base != get(self.chain[k]) {
                         // a shared transaction changed the item and a head forked above it changed it again
                         self.stats.chain_value_superseded.inc();
                     }
-                    vals.extend(distinct);
+                    let several = distinct.len() > 1;
+                    vals.extend(distinct.into_iter().map(|(v, f)| (v, f || several)));
                 }
             }
             from_below = Some(vals);
         }
         (get(self.chain[0]), from_below.unwrap())
+    }
+
+    /// Staggered forks only: commits a shared transaction pointed this ref at which a head
+    /// rewrote or abandoned; their successors may legitimately show up in the result (the ref
+    /// follows the rewrite) next to what the heads forked above that transaction did.
+    fn followed_history_adds(&self, kind: &str, name: &str, follow: bool) -> BTreeSet<Id> {
+        let mut out = BTreeSet::new();
+        if !follow {
+            return out;
+        }
+        for k in 1..self.chain.len() {
+            let h = ref_map(self.chain[k], kind).get(name).cloned().unwrap_or_else(|| vec![None]);
+            for a in h.iter().step_by(2).flatten() {
+                if self.hidden_by_some_side(a) {
+                    out.extend(self.follow_set(follow, a).into_iter().filter(|x| x != a));
+                }
+            }
+        }
+        out
+    }
+
+    /// Staggered forks only: every commit a shared transaction pointed this ref at.
+    fn history_adds(&self, kind: &str, name: &str) -> Vec<Id> {
+        let mut out = vec![];
+        for k in 1..self.chain.len() {
+            let h = ref_map(self.chain[k], kind).get(name).cloned().unwrap_or_else(|| vec![None]);
+            out.extend(h.iter().step_by(2).flatten().cloned());
+        }
+        out
     }
 
     fn name(&self, id: &Id) -> String {
@@ -982,13 +1030,13 @@ impl<'a> Judge<'a> {
 
     /// Some side hid this base commit (rewrote or abandoned it).
     fn hidden_by_some_side(&self, id: &Id) -> bool {
-        self.deltas().iter().any(|(x, y, ..)| x.vis.contains_key(id) && !y.vis.contains_key(id))
+        self.pairs().iter().any(|(x, y, ..)| x.vis.contains_key(id) && !y.vis.contains_key(id))
     }
 
     /// Some side abandoned this base commit (hid it and has no other commit of its change).
     fn abandoned_by_some_side(&self, id: &Id) -> bool {
         let Some(info) = self.union.get(id) else { return false };
-        self.deltas().iter().any(|(x, y, ..)| {
+        self.pairs().iter().any(|(x, y, ..)| {
             x.vis.contains_key(id) && !y.vis.contains_key(id) && !y.vis.values().any(|c| c.change == info.change)
         })
     }
@@ -1038,19 +1086,19 @@ impl<'a> Judge<'a> {
             return false;
         }
         let Some(info) = self.union.get(id) else { return false };
+        // number of different rewrites of this change that the concurrent heads carry
         let rewriting_sides = self
-            .deltas()
+            .sides
             .iter()
-            .filter(|(x, y, ..)| {
-                x.vis.contains_key(id) && !y.vis.contains_key(id) && y.vis.values().any(|c| c.change == info.change)
-            })
-            .count();
+            .flat_map(|sn| sn.vis.iter().filter(|(i, c)| c.change == info.change && *i != id).map(|(i, _)| i.clone()))
+            .collect::<BTreeSet<Id>>()
+            .len();
         let children: Vec<&Id> =
             self.merged.vis.iter().filter(|(_, c)| c.parents.contains(id)).map(|(m, _)| m).collect();
         !children.is_empty()
             && children.iter().all(|c| {
                 let added_while_id_present = self
-                    .deltas()
+                    .pairs()
                     .iter()
                     .any(|(x, y, ..)| !x.vis.contains_key(*c) && y.vis.contains_key(*c) && y.vis.contains_key(id));
                 if added_while_id_present && !self.hidden_by_some_side(c) {
@@ -1170,26 +1218,11 @@ impl<'a> Judge<'a> {
             allowed.extend(self.follow_set(follow, a));
         }
         let own_allowed = allowed.clone();
-        // staggered forks: the value is a rewrite of a commit a shared transaction pointed the ref
-        // at; a head forked below that transaction may have rewritten the same commit too, and the
-        // ref then follows both rewrites
-        let mut history_extends = false;
-        if follow && self.chain.len() > 1 {
-            let changes: BTreeSet<String> =
-                v.iter().step_by(2).flatten().filter_map(|a| self.union.get(a).map(|i| i.change.clone())).collect();
-            for k in 1..self.chain.len() {
-                let h = ref_map(self.chain[k], kind).get(name).cloned().unwrap_or_else(|| vec![None]);
-                for a in h.iter().step_by(2).flatten() {
-                    if self.union.get(a).is_some_and(|i| changes.contains(&i.change)) {
-                        let f = self.follow_set(follow, a);
-                        if !f.is_subset(&allowed) {
-                            history_extends = true;
-                        }
-                        allowed.extend(f);
-                    }
-                }
-            }
-        }
+        // staggered forks: successors of commits a shared transaction pointed the ref at, rewritten
+        // by some head, may appear next to the value
+        let optional = self.followed_history_adds(kind, name, follow);
+        let history_extends = !optional.is_subset(&allowed);
+        allowed.extend(optional);
         let m_adds: Vec<&Id> = m.iter().step_by(2).flatten().collect();
         let mut ok = !m_adds.is_empty()
             && m_adds.iter().all(|x| allowed.contains(*x))
@@ -1225,18 +1258,22 @@ impl<'a> Judge<'a> {
         let follow = kind == "bookmark";
         let get = |sn: &Snap| -> Terms { ref_map(sn, kind).get(name).cloned().unwrap_or_else(|| vec![None]) };
         let m = get(self.merged);
-        let (b, vals): (Terms, Vec<Terms>) = self.live_values(&get);
+        let (b, vals): (Terms, Vec<(Terms, bool)>) = self.live_values(&get);
         let mut distinct: Vec<Terms> = vec![];
-        for v in vals.iter().filter(|v| **v != b) {
+        for (v, _) in vals.iter().filter(|(v, forced)| *forced || *v != b) {
             if !distinct.contains(v) {
                 distinct.push(v.clone());
             }
         }
-        let changed_count = vals.iter().filter(|v| **v != b).count();
+        let changed_count = vals.iter().filter(|(v, forced)| *forced || *v != b).count();
+        let optional = self.followed_history_adds(kind, name, follow);
         match distinct.len() {
             0 => {
                 self.stats.ref_untouched.inc();
-                if m != b {
+                let m_adds: Vec<&Id> = m.iter().step_by(2).flatten().collect();
+                let follows_history =
+                    !optional.is_empty() && !m_adds.is_empty() && m_adds.iter().all(|x| optional.contains(*x));
+                if m != b && !follows_history {
                     let msg = format!(
                         "{kind} {name} was changed by no side (base {}), reconciled value {}",
                         show_terms(self, &b),
@@ -1261,6 +1298,7 @@ impl<'a> Judge<'a> {
                     // sides' rewrites and abandonments, the sides that still differ from the base agree
                     // or lie on one line of history above the base (fast-forward)
                     let mut ok = false;
+                    let history = self.history_adds(kind, name);
                     let options: Option<Vec<Vec<Option<Id>>>> = distinct
                         .iter()
                         .map(|v| match v.as_slice() {
@@ -1290,7 +1328,14 @@ impl<'a> Judge<'a> {
                             let mut remaining: Vec<Option<Id>> = vec![];
                             for (k, &c) in choice.iter().enumerate() {
                                 let g = &options[k][c];
-                                if !base_set.contains(g) && !remaining.contains(g) {
+                                // staggered forks: a value that was fast-forwarded into what a shared
+                                // transaction set (which a later head then replaced) is used up
+                                let absorbed = matches!(g, Some(x) if history.iter().any(|h| h != x && is_anc(&self.union, x, h))
+                                    && base_set.iter().any(|bi| match bi {
+                                        None => true,
+                                        Some(bc) => is_anc(&self.union, bc, x),
+                                    }));
+                                if !base_set.contains(g) && !remaining.contains(g) && !absorbed {
                                     remaining.push(g.clone());
                                 }
                             }
@@ -1400,7 +1445,9 @@ impl<'a> Judge<'a> {
 
     fn judge_wc(&mut self, ws: &str) {
         let m = self.merged.wcs.get(ws).cloned();
-        let (b, vals): (Option<Id>, Vec<Option<Id>>) = self.live_values(|sn: &Snap| sn.wcs.get(ws).cloned());
+        let (b, vals_forced): (Option<Id>, Vec<(Option<Id>, bool)>) =
+            self.live_values(|sn: &Snap| sn.wcs.get(ws).cloned());
+        let vals: Vec<Option<Id>> = vals_forced.iter().map(|(v, _)| v.clone()).collect();
         // with heads forked at one operation the documented rule names the winner; with staggered
         // fork points the side whose value is "self" at each step is not a head, so any of the
         // candidate values is accepted there
@@ -2062,9 +2109,9 @@ fn main() {
     let mut stagger_sets: Vec<(&BaseSpec, usize, Vec<usize>, Vec<Action>, Vec<Action>)> = vec![];
     if ctx.quick() {
         stagger_sets.push((&family[0], 1, vec![0, 1, 1], stagger_chain_alphabet(5), stagger_head_alphabet(6)));
-        stagger_sets.push((&family[0], 1, vec![0, 0, 1], stagger_chain_alphabet(5), stagger_head_alphabet(6)));
+        stagger_sets.push((&family[0], 1, vec![0, 0, 1], stagger_chain_alphabet(5), stagger_head_alphabet(5)));
         stagger_sets.push((&family[0], 2, vec![0, 1, 2], stagger_chain_alphabet(3), stagger_head_alphabet(5)));
-        stagger_sets.push((&family[0], 1, vec![0, 1], stagger_chain_alphabet(6), stagger_head_alphabet(10)));
+        stagger_sets.push((&family[0], 1, vec![0, 1], stagger_chain_alphabet(5), stagger_head_alphabet(8)));
     } else {
         for b in [0usize, 1] {
             stagger_sets.push((&family[b], 1, vec![0, 1, 1], stagger_chain_alphabet(10), stagger_head_alphabet(12)));
